@@ -849,8 +849,18 @@ func (ms *MidState) fileContractElement(ts V1TransactionSupplement, id types.Fil
 }
 
 func (ms *MidState) storageProofWindowID(ts V1TransactionSupplement, id types.FileContractID) (types.BlockID, bool) {
-	if i, ok := ms.elements[id]; ok && i < len(ms.fces) && ms.fces[i].FileContractElement.ID == id && ms.fces[i].FileContractElement.FileContract.WindowStart == ms.base.childHeight() {
-		return ms.base.Index.ID, true
+	if i, ok := ms.elements[id]; ok && i < len(ms.fces) && ms.fces[i].FileContractElement.ID == id {
+		// the window is that of the contract as it currently stands, i.e.
+		// including any revision made earlier in the block
+		fce := ms.fces[i].FileContractElement
+		if rev, ok := ms.fces[i].RevisionElement(); ok {
+			fce = rev
+		}
+		if fce.FileContract.WindowStart == ms.base.childHeight() {
+			return ms.base.Index.ID, true
+		} else if fce.FileContract.WindowStart > ms.base.childHeight() {
+			return types.BlockID{}, false
+		}
 	}
 	for _, sps := range ts.StorageProofs {
 		if sps.FileContract.ID == id {
